@@ -64,6 +64,9 @@ Definition civil_of (t : gtime) : civil :=
   let '(y, m, d) := civil_from_days days in
   {| cy := y; cmo := m; cd := d; chh := r / 3600; cmi := r mod 3600 / 60; css := r mod 60 |}.
 
+(* Time.Year() *)
+Definition time_Year (t : gtime) : Z := cy (civil_of t).
+
 Definition fmt_date_civil (c : civil) : str :=
   append_int (cy c) 4 ++ [45] ++ pad2 (cmo c) ++ [45] ++ pad2 (cd c).
 
